@@ -122,6 +122,9 @@ func ReadBPTreeRootIdxAt(fd *os.File, off int64) (*BPTreeRootIdx, error) {
 
 // Persistence writes BPTreeRootIdx entry to the File starting at byte offset off.
 func (bri *BPTreeRootIdx) Persistence(path string, offset int64, syncEnable bool) (number int, err error) {
+	if err := verifFS("create", path, 0, nil); err != nil {
+		return 0, err
+	}
 	fd, err := os.OpenFile(path, os.O_CREATE|os.O_RDWR, 0644)
 	defer fd.Close()
 	if err != nil {
@@ -130,12 +133,18 @@ func (bri *BPTreeRootIdx) Persistence(path string, offset int64, syncEnable bool
 
 	data := bri.Encode()
 
+	if err := verifFS("write", path, offset, data); err != nil {
+		return 0, err
+	}
 	n, err := fd.WriteAt(data, offset)
 	if err != nil {
 		return 0, err
 	}
 
 	if syncEnable {
+		if err := verifFS("sync", path, 0, nil); err != nil {
+			return 0, err
+		}
 		err = fd.Sync()
 		if err != nil {
 			return 0, err
